@@ -764,6 +764,15 @@ fn judge_shape(ctx: &mut Ctx<'_>, c: &CaseDesc, inner: Option<&CaseDesc>, tok: &
                 return bad(ctx, format!("tuple declares {declared_len}, sends {}, expected {n} numbers ({w:?})", items.len()));
             }
         }
+        (Shape::Seq, w) => {
+            let Tok::Seq { declared_len, items } = tok else {
+                return bad(ctx, "expected a sequence".into());
+            };
+            let n = c.nvals;
+            if items.len() != n || *declared_len != Some(n) || !items.iter().all(|t| t.is_scalar()) {
+                return bad(ctx, format!("sequence declares {declared_len:?}, sends {}, expected {n} numbers ({w:?})", items.len()));
+            }
+        }
         (Shape::UnitType, Wrapper::None) => {
             if !matches!(tok, Tok::Unit) {
                 return bad(ctx, "expected the unit value".into());
@@ -789,6 +798,7 @@ fn judge_shape(ctx: &mut Ctx<'_>, c: &CaseDesc, inner: Option<&CaseDesc>, tok: &
                 (Tok::Newtype { name: n1, .. }, Tok::UnitStruct { name: n2 }) => n1 == n2,
                 (Tok::Tuple { items: f1, .. }, Tok::Tuple { items: f2, .. }) => f1.len() == f2.len() + 1 && f1[..f2.len()] == f2[..],
                 (Tok::Tuple { items: f1, .. }, Tok::Unit) => f1.len() == 1,
+                (Tok::Seq { items: f1, .. }, Tok::Seq { items: f2, .. }) => f1.len() == f2.len() + 1 && f1[..f2.len()] == f2[..],
                 _ => false,
             };
             if !same_prefix {
@@ -1530,7 +1540,7 @@ fn json_shape_problem(c: &CaseDesc, vals: &[f64], text: &str) -> Option<String> 
             let body: Vec<String> = keys.iter().zip(nums.iter()).map(|(k, v)| format!("\"{k}\":{v}")).collect();
             format!("{{{}}}", body.join(","))
         }
-        Shape::TupleStruct | Shape::Tuple => format!("[{}]", nums.join(",")),
+        Shape::TupleStruct | Shape::Tuple | Shape::Seq => format!("[{}]", nums.join(",")),
         Shape::UnitType => {
             if has_alpha {
                 format!("[{}]", nums.join(","))
